@@ -12,7 +12,7 @@ LEVEL = "proof"
 # pinned-vs-repaired switch: set to True when hooks/c09_fix_d3.patch has been committed to /repo.  The check itself reads the
 # state from the regenerated inventory (is DensitySubGrid::_inv_cell_size dumped?); the constant only says what is EXPECTED,
 # a disagreement is reported as a note.
-D3_FIXED = False
+D3_FIXED = True
 
 CLAIM = dict(cat="proof", design="§3 C09",
    text="Coq theorems (no axioms beyond Coq's primitive binary64 in the two refutations): (a) the typed binary codec of RestartWriter/RestartReader (bool, integers of any width, doubles as bit patterns, "
